@@ -153,9 +153,61 @@ def point(rng, n):
     return [round(0.3 + 1.7 * rng.unit(), 6) * rng.pick([1.0, 1.0, 1.0, -1.0]) for _ in range(n)]
 
 
-def emit(seed, tier):
+ARRAY_CLASSES = ["Dual64", "Dual2_64", "Dual3_64", "HyperDual64", "HyperHyperDual64"]
+
+
+def emit_array_jobs(rng, tier):
+    """numpy arrays as operands of the four operators: x (op) array and array (op) x, for float arrays and for
+    object arrays of dual numbers.  For the reference model each array operation is expanded into the
+    elementwise scalar operations; the Python side performs it as ONE array operation and, afterwards, also
+    checks that every operand array still holds what it held before (registers are values: an operation never
+    changes an existing register)."""
+    jobs = []
+    for cname in ARRAY_CLASSES:
+        nparts = CLASSES[cname]
+        for _ in range(6 if tier == "quick" else 60):
+            n_in = 3 + rng.below(3)
+            inputs, re = [], []
+            for _i in range(n_in):
+                parts = [round(-2 + 4 * rng.unit(), 5) for _ in range(nparts)]
+                parts[0] = round(0.4 + 1.5 * rng.unit(), 5)
+                inputs.append(parts)
+                re.append(parts[0])
+            ops = []
+            nreg = n_in
+            arrays, steps = [], []
+            k = 2 + rng.below(n_in - 1)
+            obj_elems = [rng.below(n_in) for _ in range(k)]
+            arrays.append({"dtype": "object", "elems": obj_elems, "shape": [k]})
+            flt = [rng.pick(CONSTS) for _ in range(2 + rng.below(3))]
+            shape = [2, 2] if len(flt) == 4 else [len(flt)]
+            arrays.append({"dtype": "float", "elems": [fbits(c) for c in flt], "elem_vals": flt, "shape": shape})
+            for _s in range(2 + rng.below(3)):
+                aid = rng.below(2)
+                side = rng.pick(["x_left", "x_right"])
+                opn = rng.pick(["add", "sub", "mul", "div"])
+                x = rng.below(n_in)
+                first = nreg
+                arr = arrays[aid]
+                for e in (arr["elems"] if aid == 0 else flt):
+                    if aid == 0:  # dual (op) dual, operand order as written
+                        ops.append({"op": opn, "a": x, "b": e} if side == "x_left" else {"op": opn, "a": e, "b": x})
+                    elif side == "x_left":
+                        ops.append({"op": opn + "_f", "a": x, "c": e})
+                    else:
+                        ops.append({"op": "r" + opn + "_f", "a": x, "c": e})
+                    nreg += 1
+                steps.append({"array": aid, "side": side, "op": opn, "x": x, "first_out": first, "n": nreg - first})
+            jobs.append({"kind": "scalar", "class": cname, "inputs": [[fbits(p) for p in ps] for ps in inputs], "ops": bitsify(ops),
+                         "array_plan": {"arrays": arrays, "steps": steps}})
+    return jobs
+
+
+def emit(seed, tier, with_numpy=False):
     rng = Splitmix(seed ^ 0xC17)
     jobs = []
+    if with_numpy:
+        jobs += emit_array_jobs(Splitmix(seed ^ 0xA88A), tier)
     n_scalar = 40 if tier == "quick" else 400
     for cname, nparts in CLASSES.items():
         for _ in range(n_scalar):
@@ -328,7 +380,11 @@ def run_job(nd, job, ref):
             else:
                 regs.append(cls(*p))
         n_in = len(regs)
-        for k, op in enumerate(job["ops"]):
+        if "array_plan" in job:
+            m = run_array_plan(job, regs, ref)
+            if m is not None:
+                return m
+        for k, op in enumerate(job["ops"] if "array_plan" not in job else []):
             try:
                 regs.append(py_step(op, regs))
             except BaseException as e:  # noqa: BLE001 - includes pyo3's PanicException
@@ -399,6 +455,75 @@ def run_job(nd, job, ref):
     return None
 
 
+def run_array_plan(job, regs, ref):
+    """perform each planned array operation as one numpy-level operation; results become registers"""
+    import operator
+
+    import numpy as np
+    plan = job["array_plan"]
+    n_in = len(regs)
+    arrays = []
+    for a in plan["arrays"]:
+        if a["dtype"] == "object":
+            arr = np.empty(len(a["elems"]), dtype=object)
+            for i, e in enumerate(a["elems"]):
+                arr[i] = regs[e]
+        else:
+            arr = np.array([unbits(h) for h in a["elems"]], dtype=float).reshape(a["shape"])
+        arrays.append(arr)
+    fn = {"add": operator.add, "sub": operator.sub, "mul": operator.mul, "div": operator.truediv}
+    for si, st in enumerate(plan["steps"]):
+        arr, x = arrays[st["array"]], regs[st["x"]]
+        what = f"array step {si}: {'x ' + st['op'] + ' array' if st['side'] == 'x_left' else 'array ' + st['op'] + ' x'} ({plan['arrays'][st['array']]['dtype']} array)"
+        try:
+            res = fn[st["op"]](x, arr) if st["side"] == "x_left" else fn[st["op"]](arr, x)
+            out = list(np.asarray(res, dtype=object).flat)
+        except BaseException as e:  # noqa: BLE001
+            if isinstance(e, (SystemExit, MemoryError, KeyboardInterrupt)):
+                raise
+            return {"at": st["first_out"], "what": what, "python_raised": f"{type(e).__name__}: {str(e)[:200]}"}
+        if len(out) != st["n"]:
+            return {"at": st["first_out"], "what": what, "python": f"{len(out)} elements", "rust": f"{st['n']} elements"}
+        for i, r in enumerate(out):
+            rr = ref["regs"][st["first_out"] + i]
+            if not same_bits(flat(r), rr["parts"]) or repr(r) != rr["repr"]:
+                return {"at": st["first_out"] + i, "what": what + f", element {i}", "python_repr": repr(r), "rust_display": rr["repr"],
+                        "note": "the reference evaluates every element from the registers as they were created (registers are values)"}
+        regs.extend(out)
+        # no operation may change an existing register: every operand array must still hold what it was built from
+        for ai, (a, arr2) in enumerate(zip(plan["arrays"], arrays)):
+            for i, e in enumerate(arr2.flat):
+                if a["dtype"] == "object":
+                    want = ref["regs"][a["elems"][i]]
+                    if not same_bits(flat(e), want["parts"]):
+                        return {"at": st["first_out"], "what": what + f": operand array {ai} was modified by the operation (element {i})",
+                                "python_repr": repr(e), "rust_display": want["repr"], "operand_changed": True}
+                elif fbits(e) != a["elems"][i]:
+                    return {"at": st["first_out"], "what": what + f": float operand array {ai} was modified (element {i})", "operand_changed": True}
+    return None
+
+
+def finding_key(job, m):
+    """identity of a conformance finding: what fails (class or driver, operation, kind), not which seed or job found it"""
+    who = job.get("class") or job.get("driver")
+    if m.get("operand_changed"):
+        st = next((t for t in job["array_plan"]["steps"] if t["first_out"] == m["at"]), None)
+        kind = job["array_plan"]["arrays"][st["array"]]["dtype"] if st else "?"
+        return f"conformance:operand_modified:{'x ' + st['op'] + ' array' if st and st['side'] == 'x_left' else 'array op x'}:{kind}_array"
+    what = m["what"]
+    opname = what.split("(")[-1].rstrip(")") if "(" in what and what.startswith("step") else what.split(":")[0]
+    return f"conformance:{who}:{opname}"
+
+
+def truncate_array_job(job, at):
+    """keep the array steps up to and including the one that produced register `at`"""
+    plan = job["array_plan"]
+    n_in = len(job["inputs"])
+    keep = [t for t in plan["steps"] if t["first_out"] <= at]
+    last = keep[-1]
+    return dict(job, ops=job["ops"][: last["first_out"] + last["n"] - n_in], array_plan=dict(plan, steps=keep))
+
+
 def slice_job(job, upto):
     """dependency slice of a scalar job: keep only the operations register `upto` depends on"""
     n_in = len(job["inputs"])
@@ -431,9 +556,10 @@ def main():
     ap.add_argument("--jobs")
     ap.add_argument("--ref")
     ap.add_argument("--out", required=True)
+    ap.add_argument("--numpy", type=int, default=0, help="emit: also generate numpy-array operand programs")
     a = ap.parse_args()
     if a.mode == "emit":
-        json.dump(emit(a.seed, a.tier), open(a.out, "w"))
+        json.dump(emit(a.seed, a.tier, bool(a.numpy)), open(a.out, "w"))
         return
     import num_dual as nd
     t0 = time.time()
@@ -442,12 +568,15 @@ def main():
         sys.exit("harness error: reference has a different number of jobs")
     digest = 0xcbf29ce484222325
     stats = {"jobs": 0, "operations": 0, "registers_compared": 0, "by_class": {}, "by_driver": {}, "ops_used": {}}
-    mismatch = None
+    mismatches = []
     for ji, (job, ref) in enumerate(zip(jobs, refs)):
         m = run_job(nd, job, ref)
         stats["jobs"] += 1
         stats["operations"] += len(job["ops"])
         stats["registers_compared"] += len(job["ops"]) + len(job.get("inputs", job.get("x", [])))
+        if "array_plan" in job:
+            stats["array_operand_programs"] = stats.get("array_operand_programs", 0) + 1
+            stats["array_operations"] = stats.get("array_operations", 0) + len(job["array_plan"]["steps"])
         key = job.get("class") or job["driver"]
         grp = "by_class" if job["kind"] == "scalar" else "by_driver"
         stats[grp][key] = stats[grp].get(key, 0) + 1
@@ -455,10 +584,9 @@ def main():
             stats["ops_used"][op["op"]] = stats["ops_used"].get(op["op"], 0) + 1
         for b in json.dumps([ji, m is None], sort_keys=True).encode():
             digest = ((digest ^ b) * 0x100000001b3) & 0xFFFFFFFFFFFFFFFF
-        if m is not None:
-            mismatch = {"job_index": ji, "job": job, "mismatch": m}
-            break
-    json.dump({"digest": f"{digest:016x}", "stats": stats, "mismatch": mismatch, "wall_s": round(time.time() - t0, 3),
+        if m is not None and len(mismatches) < 200:
+            mismatches.append({"job_index": ji, "job": job, "mismatch": m, "finding_key": finding_key(job, m)})
+    json.dump({"digest": f"{digest:016x}", "stats": stats, "mismatch": mismatches[0] if mismatches else None, "mismatches": mismatches, "wall_s": round(time.time() - t0, 3),
                "sample": {"job": jobs[0], "reference_last_register": refs[0]["regs"][-1] if "regs" in refs[0] else refs[0]}}, open(a.out, "w"), indent=1)
 
 
